@@ -17,7 +17,7 @@ THEOREMS = ["coarsenBins_spec", "coarsenGroup_eq_spec", "cmap_monotone", "cmap_c
             "groupSum_map_groupSum", "coarsen_correct", "coarsen_pointwise", "coarsen_triu", "coarsen_inRange", "groups_flatten",
             "coarsen_agg_eq_spec", "coarsen_agg_chunk_independent", "coarsen_agg_correct", "coarsenSpecAgg_sum", "aggFromAgg_spec",
             "coarsen_agg_pointwise"]
-LEVELS = {"coarsen": "top", "chain": "top", "merge_coarsen": "top", "agg": "top", "extra_column": "top", "cli": "top",
+LEVELS = {"value_columns": "top", "coarsen": "top", "chain": "top", "merge_coarsen": "top", "agg": "top", "extra_column": "top", "cli": "top",
           "prune": "unit", "coarsener": "unit", "bins": "unit"}
 DESCRIBE = {
     "coarsen": "cooler.coarsen_cooler(src, out, k, chunksize, nproc) for k = 2..n+1 and EVERY chunksize 1..nnz+1 (nnz <= 8; sampled "
@@ -32,6 +32,10 @@ DESCRIBE = {
     "extra_column": "coarsen with columns=['count','w'] or ['w'] (D25 regression): the output carries every requested column, count = exact "
                     "sum (Lean), w = sum/max/min over exactly the old pixels that Lean's `cmap` sends to the key",
     "cli": "`cooler coarsen -k K -c CHUNK -o out in` (CliRunner) vs Lean L0",
+    "value_columns": "value columns and dtypes through coarsen_cooler and `cooler coarsen --field ...`: float count column (multiples of "
+                     "1/4) next to an integer column, `dtypes` None / {} / partial / complete, per-column aggregates requested in either "
+                     "order, block sums beyond int32 with and without a 64-bit output dtype: every output column vs Lean "
+                     "`coarsenSpecAgg`; a sum that does not fit the output dtype is refused, never stored differently (`checkedWrite`)",
     "prune": "contract `validPrunedEdges` evaluated by Lean on the real _greedy_prune_partition(edges, chunksize) output",
     "coarsener": "CoolerCoarsener(uri, k, chunksize): its pruned `.edges` satisfy `validPrunedEdges` w.r.t. Lean's `coarsenEdges` (every cut "
                  "is a coarse-row boundary) and the Lean stream driven by them equals L0; `.new_bins` = Lean `coarsenBins`",
@@ -277,6 +281,102 @@ def _extra_column(case):
         _unlink(src, out)
 
 
+def _value_columns(case):
+    """value columns and their dtypes through coarsen_cooler and `cooler coarsen`: a FLOAT count column (multiples of 1/4)
+    next to an integer column `w`, `dtypes` given as None / {} / a dict naming only some columns, per-column aggregates
+    named in either order, block sums beyond int32.  Every column of the output vs Lean `coarsenSpecAgg` (sum = the
+    aggregate "sum"); a sum that does not fit the output dtype must be refused, never stored differently (C01 checkedWrite)."""
+    bins, pixels, k, cs = case["bins"], case["pixels"], case["k"], case["chunksize"]
+    mode = case["mode"]
+    d = gen.tmpdir()
+    src = os.path.join(d, f"v-{_tag()}-src.cool")
+    out = os.path.join(d, f"v-{_tag()}-out.cool")
+    try:
+        w = [int((v * 7 + i * 3) % 11 - 4) for i, (_, _, v) in enumerate(pixels)]
+        wpx = [[i, j, x] for (i, j, _), x in zip(pixels, w)]
+        scale = 1
+        df = gen.pixels_df(pixels, "float64" if mode["count"] == "float" else "int32", {"w": np.array(w, dtype=np.int64)})
+        if mode["count"] == "float":
+            scale = 4
+            df["count"] = df["count"] / 4.0
+        cooler.create_cooler(src, gen.bins_df(bins), df, ordered=True, columns=["count", "w"],
+                             dtypes={"w": "int64", "count": "float64" if scale == 4 else "int32"})
+        aggs = mode["agg"]                       # {"count": "sum"|None, "w": "max"|...|None}; None = not named (default sum)
+        order = mode["order"]                    # order in which the columns are requested
+        want = {}
+        for col, base in (("count", pixels), ("w", wpx)):
+            a = aggs.get(col) or "sum"
+            ma = drv().ask("C08.coarsen_agg", bins=bins, lens=_lens(bins), pixels=base, k=k, chunksize=cs, agg=a)
+            assert ma["table_ok"] and ma["l1_agrees"], "theorem coarsen_agg_eq_spec contradicted"
+            want[col] = ma["pixels"]
+        # output dtype of count: the requested one, else the source's
+        cdt = mode.get("count_dtype")
+        out_dt = cdt or ("float64" if mode["count"] == "float" else "int32")
+        fits = True
+        if not out_dt.startswith("float"):
+            sg, bt = (True, int(out_dt[3:])) if out_dt.startswith("int") else (False, int(out_dt[4:]))
+            mcw = drv().ask("C01.checked_write", signed=sg, bits=bt, values=[p[2] for p in want["count"]])
+            fits = mcw["stored"] is not None
+        dt = mode["dtypes"]                      # None | "empty" | "w_only" | "all"
+        dtypes = None if dt is None else {}
+        if dt == "w_only":
+            dtypes = {"w": np.dtype("int64")}
+        elif dt == "all":
+            dtypes = {"w": np.dtype("int64"), "count": np.dtype(out_dt)}
+        if cdt and dt != "all":
+            dtypes = dict(dtypes or {}, count=np.dtype(cdt))
+        raised = None
+        if mode["via"] == "cli":
+            from click.testing import CliRunner
+            from cooler.cli import cli
+            argv = ["coarsen", "-k", str(k), "-c", str(cs), "-o", out]
+            for col in order:
+                props = []
+                if dtypes and col in dtypes:
+                    props.append(f"dtype={dtypes[col]}")
+                if aggs.get(col):
+                    props.append(f"agg={aggs[col]}")
+                argv += ["--field", col + (":" + ",".join(props) if props else "")]
+            r = CliRunner().invoke(cli, argv + [src])
+            if r.exit_code != 0:
+                raised = repr(r.exception)[:200]
+            where = {"argv": argv[:-1] + ["<out>", "<src>"]}
+        else:
+            kw = {}
+            if any(aggs.get(c) for c in order):
+                kw["agg"] = {c: aggs[c] for c in order if aggs.get(c)}
+            try:
+                cooler.coarsen_cooler(src, out, k, chunksize=cs, columns=list(order), dtypes=dtypes, **kw)
+            except Exception as e:  # noqa: refusal of a sum that does not fit is an allowed outcome
+                raised = type(e).__name__
+            where = {"call": f"coarsen_cooler(k={k}, chunksize={cs}, columns={list(order)}, dtypes={dtypes}, agg={kw.get('agg')})"}
+        where.update(k=k, chunksize=cs, source_count_dtype="float64 (count/4)" if scale == 4 else "int32")
+        if not fits:
+            if raised is None:
+                t = cooler.Cooler(out).pixels()[:]
+                return dict(where, mismatch=True, what="a block aggregate that does not fit the output dtype was stored",
+                            stored=[int(v) for v in t["count"]], model=[p[2] for p in want["count"]])
+            return {"stats": {"refused_overflow": 1}}
+        if raised is not None:
+            return dict(where, mismatch=True, what="coarsening failed", raised=raised)
+        t = impl(lambda: cooler.Cooler(out).pixels()[:])
+        for col in order:
+            if col not in t.columns:
+                return dict(where, mismatch=True, what="requested value column missing from the output", column=col)
+            vals = [float(v) * (scale if col == "count" else 1) for v in t[col]]
+            got = [[int(a), int(b), int(round(v))] for a, b, v in zip(t["bin1_id"], t["bin2_id"], vals)]
+            if got != want[col] or any(v != round(v) for v in vals):
+                return dict(where, mismatch=True, what=f"column {col} (agg={aggs.get(col) or 'sum'})",
+                            impl=[[a, b, v / (scale if col == "count" else 1)] for (a, b, _), v in zip(got, vals)],
+                            model=[[a, b, v / (scale if col == "count" else 1)] for a, b, v in want[col]])
+        if "count" in order and str(t["count"].dtype) != out_dt:
+            return dict(where, mismatch=True, what="dtype of the count column", impl=str(t["count"].dtype), expected=out_dt)
+        return {"stats": {"coarsened": 1}}
+    finally:
+        _unlink(src, out)
+
+
+
 def _cli(case):
     from click.testing import CliRunner
     from cooler.cli import cli
@@ -363,7 +463,7 @@ def _bins(case):
     return None
 
 
-CHECKS = {"coarsen": _coarsen, "chain": _chain, "merge_coarsen": _merge_coarsen, "agg": _agg, "extra_column": _extra_column, "cli": _cli,
+CHECKS = {"value_columns": _value_columns, "coarsen": _coarsen, "chain": _chain, "merge_coarsen": _merge_coarsen, "agg": _agg, "extra_column": _extra_column, "cli": _cli,
           "prune": _prune, "coarsener": _coarsener, "bins": _bins}
 
 
@@ -485,6 +585,22 @@ def cases(tier, rng):
     for _ in range(10 if thorough else 4):
         c = _cooler(rng, nmax)
         yield "cli", dict(c, k=rng.randint(2, len(c["bins"]) + 1), chunksize=rng.randint(1, 6))
+    # value columns and dtypes (library and CLI)
+    for t in range(96 if thorough else 24):
+        bins, style = _table(rng, nmax)
+        px = gen.matrix_kinds(rng, len(bins), True, rng.choice(["full", "dense-random", "random", "nodiag"]))
+        px = px or gen.matrix_kinds(rng, len(bins), True, "full")
+        big = t % 4 == 3
+        if big:
+            px = [[i, j, 2 ** 30 + v] for i, j, v in px]
+        mode = {"count": "int" if big else ["float", "float", "int"][t % 3],
+                "via": ["lib", "cli"][(t // 2) % 2],
+                "dtypes": [None, "empty", "w_only", "all"][(t // 4) % 4],
+                "agg": {"count": rng.choice([None, None, "sum"]), "w": rng.choice([None, "max", "min", "first", "last", "sum"])},
+                "order": rng.choice([["count", "w"], ["w", "count"]]),
+                "count_dtype": rng.choice([None, "int64"]) if big else None}
+        yield "value_columns", {"bins": bins, "pixels": px, "k": rng.randint(2, len(bins) + 1), "chunksize": rng.randint(1, 6),
+                                "mode": mode}
     # units
     for _ in range(200 if thorough else 60):
         m = rng.randint(1, 9)
@@ -498,7 +614,7 @@ def cases(tier, rng):
 
 
 def nontrivial(name, case):
-    if name in ("coarsen", "coarsener", "chain", "agg", "extra_column", "cli"):
+    if name in ("coarsen", "coarsener", "chain", "agg", "extra_column", "cli", "value_columns"):
         return len(case["pixels"]) >= 2 and len(case["bins"]) >= 3
     if name == "merge_coarsen":
         return sum(len(x) for x in case["inputs"]) >= 2 and len(case["bins"]) >= 3
@@ -508,6 +624,12 @@ def nontrivial(name, case):
 
 
 def distribution(name, case):
+    if name == "value_columns":
+        m = case["mode"]
+        yield f"value_columns.via={m['via']}"
+        yield f"value_columns.count={m['count']}{'(block sums beyond int32)' if case['pixels'] and case['pixels'][0][2] >= 2 ** 30 else ''}"
+        yield f"value_columns.dtypes={m['dtypes']}"
+        yield f"value_columns.agg_named={sorted(c for c in m['agg'] if m['agg'][c])}"
     if name == "coarsen":
         yield f"coarsen.{case.get('style', '?')}.{'symm' if case.get('symm', True) else 'square'}"
         yield f"coarsen.nchroms={len(_lens(case['bins']))}"
